@@ -272,6 +272,35 @@ def run(tier, seed):
                     chk.disagree("c07.predict", f"{where}: out= buffer label: model {rp[3] if len(rp) > 3 else None} observed {r['out_label']}")
                     suspects.add(r["func"])
 
+        # C06's interpreter with C07's rule as its `unitRule`: (kernel invoked, label attached) for one probe per call form
+        seen_forms = set()
+        alines, arecs = [], []
+        for r in recs:
+            k = (r["func"], r["variant"], r["out_mode"])
+            if r["outcome"] != "ok" or not r["leaves"] or k in seen_forms or r["leaves"][0]["expo"] is None:
+                continue
+            seen_forms.add(k)
+            shapes = ";".join(f"{n}={shape_wire(s)}" for n, s in r["shapes"].items())
+            alines.append("\t".join(["c07.attach", r["func"], r["variant"], r["out_mode"], shapes, str(r["leaves"][0]["size"])]))
+            arecs.append(r)
+        try:
+            areps = model.ask(alines)
+        except Exception as e:  # noqa: BLE001
+            areps = []
+            chk.disagree("driver", repr(e))
+        for r, rp in zip(arecs, areps):
+            if rp[0] != "ok" or len(rp) < 3:
+                chk.count("attach:" + rp[0])
+                continue
+            chk.count("model:c07.attach")
+            ob = observed_label(r["leaves"][0]["expo"])
+            want = "*".join(f"u{g}^{ob[g].numerator if ob[g].denominator == 1 else str(ob[g].numerator) + '/' + str(ob[g].denominator)}"
+                            for g in sorted(ob)) if r["leaves"][0]["carries"] else ""
+            kernel = rp[2].split("(")[0]
+            if rp[1] != want or kernel != ("numpy.vstack" if r["func"] == "numpy.hstack" else r["func"]):
+                chk.disagree("c07.attach", f"{r['case'][0]}: Np.run with the unit rule gives label {rp[1]!r} kernel {kernel}; observed label {want!r}")
+                suspects.add(r["func"])
+
     # rows whose defects are not on the exclusion list (a broken table obligation names them)
     if model is not None and X:
         try:
